@@ -144,8 +144,12 @@ class ConfigLeg(object):
             if draw(st.booleans()):
                 assign = [assign[0]] * n  # all the same input
             offsets = [draw(st.sampled_from([0, 0, 0, 1, 5, 20])) for _ in range(n)]
+            for sp in inputs:
+                if sp["gtf"] and draw(st.integers(0, 3)) == 0:
+                    sp["cds_only"] = True  # a GTF without exon lines: nothing to infer, still an intermediate file
             return {"inputs": inputs, "procs": n, "assign": assign, "offsets_ms": offsets,
-                    "readers": draw(st.sampled_from([2, 4, 8, 16, 32]))}
+                    "readers": draw(st.sampled_from([2, 4, 8, 16, 32])),
+                    "same_basename": draw(st.booleans())}
 
         return case()
 
@@ -154,6 +158,10 @@ class ConfigLeg(object):
         labels = ["procs=%d" % case["procs"], "same-input" if len(set(case["assign"])) == 1 else "mixed-inputs"]
         kinds = set(case["inputs"][i]["gtf"] for i in case["assign"])
         labels.append("gtf+gff3" if len(kinds) == 2 else ("gtf" if True in kinds else "gff3"))
+        if case.get("same_basename"):
+            labels.append("same-output-basename")
+        if any(case["inputs"][i].get("cds_only") for i in case["assign"]):
+            labels.append("gtf-without-exons")
         return case["procs"] >= 2, labels
 
     def check(self, case, ctx):
@@ -167,8 +175,11 @@ class ConfigLeg(object):
         paths, solo = [], []
         for i, spec in enumerate(case["inputs"]):
             p = os.path.join(outdir, "in%d.txt" % i)
+            text = make_annotation(spec)
+            if spec.get("cds_only"):
+                text = "\n".join(l for l in text.splitlines() if "\texon\t" not in l) + "\n"
             with open(p, "w") as fh:
-                fh.write(make_annotation(spec))
+                fh.write(text)
             paths.append(p)
             db = gffutils.create_db(p, os.path.join(outdir, "solo%d.db" % i))
             solo.append(dbsnap.snapshot(db))
@@ -180,8 +191,15 @@ class ConfigLeg(object):
         tf_barrier = mp.Barrier(n)
         queue = mp.Queue()
         procs = []
+        outs = []
         for k in range(n):
-            out = os.path.join(outdir, "w%d.db" % k)
+            if case.get("same_basename"):
+                os.makedirs(os.path.join(outdir, "run%d" % k))
+                outs.append(os.path.join(outdir, "run%d" % k, "annotation.db"))  # same file name, different directories
+            else:
+                outs.append(os.path.join(outdir, "w%d.db" % k))
+        for k in range(n):
+            out = outs[k]
             p = mp.Process(target=_import_worker, args=(k, paths[case["assign"][k]], out, shared_tmp, start_barrier, tf_barrier,
                                                         case["offsets_ms"][k], queue))
             p.daemon = False
@@ -211,7 +229,7 @@ class ConfigLeg(object):
         ctx.count("configurations with overlap", 1 if overlap else 0)
         # the files on disk, reopened
         for k in (0, n - 1):
-            db = gffutils.FeatureDB(os.path.join(outdir, "w%d.db" % k))
+            db = gffutils.FeatureDB(outs[k])
             s = dbsnap.snapshot(db)
             db.conn.close()
             if s != solo[case["assign"][k]]:
@@ -220,7 +238,7 @@ class ConfigLeg(object):
         m = case["readers"]
         rb = mp.Barrier(m)
         rq = mp.Queue()
-        target = os.path.join(outdir, "w0.db")
+        target = outs[0]
         readers = [mp.Process(target=_reader_worker, args=(j, target, rb, rq)) for j in range(m)]
         for p in readers:
             p.start()
